@@ -429,7 +429,23 @@ func (s *Sched) settle(t *Task) {
 				return
 			case clsRun:
 			case clsParkedOnHarness:
-				// it sent its report between our poll and the status read
+				// Either it sent its report between our poll and the status
+				// read (the report is buffered before the task parks, so it is
+				// there now), or it is blocked on a channel of the system
+				// under test (for example waiting for another caller to
+				// finish): that is handled like a held lock.
+				select {
+				case r := <-t.report:
+					s.apply(t, r)
+					return
+				default:
+				}
+				if t.state != stLockBlocked {
+					s.LockBlocks++
+				}
+				s.setHazard()
+				t.state = stLockBlocked
+				return
 			default:
 				fmt.Fprintf(os.Stderr, "SIM-FATAL unknown wait reason %q for task %d\n", goStatus(t.goid, s), t.ID)
 				os.Exit(2)
